@@ -30,6 +30,7 @@ type Cfg struct {
 	Schemes string `json:"schemes"`
 	Flavour string `json:"flavour"`
 	Esel    string `json:"esel,omitempty"`
+	Rst     string `json:"rst,omitempty"` // server flavour: "y" = the client resets the connection right after its last symbol
 }
 
 // Case is one maximal behaviour printed by TLC.
